@@ -49,7 +49,8 @@ class TextData(Data):
             values = self.workspace.fetch_values(self)
             if isinstance(values, np.ndarray) and values.dtype == object:
                 values = np.array(
-                    [v.decode("utf-8") if isinstance(v, bytes) else v for v in values]
+                    [v.decode("utf-8") if isinstance(v, bytes) else v for v in values],
+                    dtype=str,
                 )
 
             if isinstance(values, (np.ndarray, str, type(None))):
